@@ -11,10 +11,16 @@ RULE = ('G-sel graphs decorated with 0-2 design-variable nodes x both selection-
         'instance and whose variable values are the reported ones; non-trivial = at least 2 valid rows; distinct = graph+encoder')
 TRUSTED = ['the encoding description E (variables, option lists) is read from GraphProcessor.all_des_vars',
            'which valid vector a corrector picks is abstracted: the model only decides membership (decode_witness)']
-PARTIAL = ['connection choices are covered by C10/C11 machinery, not by this check']
-batches = _proc.make_batches('C01', ['complete', 'fast'], 1200, 6000, cons_prob=0.25)
-run_case = _proc.make_run_case(CLAUSES)
+RULE += ('; second batch: graphs with 1-2 connection choices (half of them with every connector on a permanent node, a quarter with '
+         'grouping nodes, exclusion edges in 30%) through GraphProcessor: every enumerated row and 25 random vectors per encoder '
+         'must decode without an exception to a final, feasible architecture (node set + connection edges) of the model -- '
+         'admissible assignment x one valid connection set per connection choice')
+PARTIAL = ['for graphs with connection choices the instance is compared as node set + connection edges (no decode_witness)']
+CONN_CLAUSES = ('processor-raises', 'decode-raises', 'decoded-instance-not-final-or-infeasible', 'decoded-architecture-not-in-model',
+                'architectures-differ', 'two-rows-one-architecture')
+batches = _proc.add_conn_batch(_proc.make_batches('C01', ['complete', 'fast'], 1200, 6000, cons_prob=0.25), 'C01')
+run_case = _proc.wrap_run_case(_proc.make_run_case(CLAUSES), CONN_CLAUSES)
 compare = _proc.compare
-shrink_candidates = _proc.shrink_candidates
+shrink_candidates = _proc.wrap_shrink(_proc.shrink_candidates)
 known_guard = _c02.known_guard
-match_known = _c02.match_known
+match_known = _proc.wrap_match_known(_c02.match_known)
